@@ -79,7 +79,7 @@ REQUIRED = {"cell": 20000, "total": 500, "additivity": 5000, "mask": 5000, "acti
             "periodicity": 5000, "periodicity_chords": 5000, "oracle_xcheck": 300, "miss": 50, "layout": 20,
             "pipeline": 1000, "pipeline_reuse": 300, "emission_function": 500, "mutated_fresh": 2000,
             "mutated_chords": 2000, "mutated_state": 250, "pipeline_alias": 20000, "aliasing_in": 10000,
-            "aliasing_out": 200}
+            "aliasing_out": 200, "observer_rows": 10000, "observer_chords": 10000}
 
 DELTA0 = 2.0e-8
 TANGENT_KEY = "cyl:ray-tangent-to-inner-bounding-cylinder:chord-before-tangent-point-lost"        # radius_inner > 0
@@ -1180,6 +1180,179 @@ def _check_pipeline_aliasing(ctx, case, g, M, rays, geom):
     sl.parent = None
 
 
+# ------------------------------------------------------------------------------------------------------------
+# string-valued options x observers with non-unit sensitivity
+# ------------------------------------------------------------------------------------------------------------
+
+KIND_SPELLINGS = {"radiance": ["radiance", "Radiance", "RADIANCE", "rAdIaNcE"], "power": ["power", "Power", "POWER", "pOwEr"]}
+_REC_CLASSES = {}
+
+
+def _recording(cls):
+    """Python subclass of a raysect observer that records the rays (local origin, direction, projection weight) it fires."""
+    if cls not in _REC_CLASSES:
+        class Rec(cls):
+            def _generate_rays(self, *a):
+                rays = super()._generate_rays(*a)
+                self.fired.append((tuple(a[:-2]), [(r.origin.copy(), r.direction.copy(), float(w)) for r, w in rays]))
+                return rays
+        Rec.__name__ = "Recording" + cls.__name__
+        _REC_CLASSES[cls] = Rec
+    return _REC_CLASSES[cls]
+
+
+def _check_observers(ctx, case, g, M, rays, geom, vmap):
+    """Pipeline `kind` in every accepted spelling (constructor and setter) on observers whose sensitivity is not 1.
+    The rays each observer fires are recorded; a 'radiance' row must be the weighted mean of the chord lengths of exactly
+    those rays (judged against the exact chords and against the same rays traced directly), a 'power' row the same times
+    the detector sensitivity (etendue) computed here from the detector's geometry."""
+    from raysect.optical import Point3D, Vector3D, Ray, translate, rotate_basis
+    from raysect.optical.observer import FibreOptic, Pixel, CCDArray, TargettedCCDArray, MeshCamera
+    from raysect.primitive import Mesh
+    from raysect.core.workflow import SerialEngine
+    from cherab.tools.raytransfer import RayTransferPipeline0D, RayTransferPipeline1D, RayTransferPipeline2D
+    hit = [r for r in rays if r["an"].total_hi > 0.0 and "E" in r]
+    if not hit:
+        return
+    rng = np.random.default_rng(case["map"]["seed"] + 37)
+    merged = bool(rng.random() < 0.5)
+    S = _Scene(case, g, M, voxel_map=vmap if merged else None)
+    vflat = vmap.ravel() if merged else np.arange(g.ncell)
+    active = vflat > -1
+    bins = int(S.rt.bins)
+    nb = int(vflat.max()) + 1
+    if bins != nb:
+        return                                              # judged by the bins monitor
+    R, T = M[:3, :3], M[:3, 3]
+    coord_scale = float(np.abs(T).max() + 4 * g.radius + 1.0)
+    delta = DELTA0 + 1e-11 * coord_scale
+    atol = 1e-9 + 1e-12 * coord_scale
+    step = case["step"] if case["step"] is not None else 0.1 * g.min_cell
+    ms = case["min_samples"]
+    r0 = hit[int(rng.integers(0, len(hit)))]
+    dw = Vector3D(*[float(x) for x in r0["dw"]])
+    tf = translate(*[float(x) for x in r0["ow"]]) * rotate_basis(dw, dw.orthogonal())
+    c = g.min_cell
+
+    def build(name, pipe):
+        """-> (observer, dimension, sensitivity of every pixel computed from the geometry)"""
+        if name == "fibre":
+            ang, rad = float(10 ** rng.uniform(-2, 1)), float(c * 10 ** rng.uniform(-4, -1.5))
+            ob = _recording(FibreOptic)([pipe], acceptance_angle=ang, radius=rad, parent=S.world, transform=tf)
+            sens = 2 * np.pi * 2 * np.sin(0.5 * np.radians(ang)) ** 2 * np.pi * rad * rad     # 2 pi (1 - cos a) x pi r^2
+            ob.pixel_samples, ob.samples_per_task = 3, 2
+        elif name == "pixel":
+            xw, yw = [float(c * 10 ** rng.uniform(-3, -1)) for _ in range(2)]
+            ob = _recording(Pixel)([pipe], x_width=xw, y_width=yw, parent=S.world, transform=tf)
+            sens = 2 * np.pi * xw * yw
+            ob.pixel_samples, ob.samples_per_task = 3, 2
+        elif name in ("ccd", "tccd"):
+            px = [(2, 1), (1, 2), (2, 2)][int(rng.integers(0, 3))]
+            width = float(c * 10 ** rng.uniform(-2, -0.5))
+            if name == "ccd":
+                ob = _recording(CCDArray)(pixels=px, width=width, parent=S.world, transform=tf, pipelines=[pipe])
+            else:
+                ob = _recording(TargettedCCDArray)([S.rt._primitive], pixels=px, width=width, targetted_path_prob=float(rng.uniform(0.3, 1.0)),
+                                                   parent=S.world, transform=tf, pipelines=[pipe])
+            sens = 2 * np.pi * (width / px[0]) ** 2
+            ob.pixel_samples = 2
+        else:
+            h = float(c * 10 ** rng.uniform(-2.5, -1))
+            mesh = Mesh([[-h, -h, 0], [h, -h, 0], [-h, h, 0], [h, h, 0]], [[0, 1, 2], [1, 3, 2]], smoothing=False, closed=False)
+            ob = _recording(MeshCamera)(mesh, pipelines=[pipe], parent=S.world, transform=tf)
+            sens = 2 * np.pi * 2 * h * h
+            ob.pixel_samples = 2
+        ob.fired = []
+        ob.spectral_bins = bins
+        ob.min_wavelength, ob.max_wavelength = 500.0, 501.0
+        ob.spectral_rays = 1
+        ob.quiet = True
+        ob.render_engine = SerialEngine()
+        return ob, sens
+
+    names = ["fibre", "pixel", "ccd", "tccd", "mesh"]
+    chosen = [names[i] for i in rng.permutation(len(names))[:2]]
+    if "fibre" not in chosen and rng.random() < 0.4:
+        chosen[0] = "fibre"
+    for name in chosen:
+        dim = {"fibre": 0, "pixel": 0, "ccd": 2, "tccd": 2, "mesh": 1}[name]
+        P = [RayTransferPipeline0D, RayTransferPipeline1D, RayTransferPipeline2D][dim]
+        for canon in ("radiance", "power"):
+            spell = KIND_SPELLINGS[canon][int(rng.integers(0, 4))]
+            via = ["ctor", "setter"][int(rng.integers(0, 2))]
+            ctx.cls("observer:%s:%s" % (name, canon))
+            try:
+                if via == "ctor":
+                    pipe = P(kind=spell)
+                else:
+                    pipe = P(kind="power" if canon == "radiance" else "radiance")
+                    pipe.kind = spell
+            except ValueError as e:
+                ctx.check(False, "pipeline%dd:kind:legal-spelling-rejected:%s" % (dim, via), "a legal spelling of kind=%r raises ValueError (%s)" % (spell, str(e)[:80]),
+                          monitor="observer_rows")
+                continue
+            ctx.check(isinstance(pipe.kind, str) and pipe.kind.lower() == canon, "pipeline%dd:kind:readback:%s" % (dim, via),
+                      "kind read back is not the kind that was set", monitor="observer_rows", got=repr(pipe.kind), set=spell)
+            ob, sens = build(name, pipe)
+            if dim == 0 and abs(ob.sensitivity - sens) > 1e-6 * sens:
+                raise AssertionError("C10 harness: independent sensitivity %r != observer.sensitivity %r (%s)" % (sens, ob.sensitivity, name))
+            ob.observe()
+            mat = np.array(pipe.matrix, dtype=float)
+            to_root = ob.to_root()
+            fired = ob.fired
+            ob.parent = None
+            # group the recorded rays by pixel
+            groups = {}
+            for key, lst in fired:
+                groups.setdefault(key, []).extend(lst)
+            factor = sens if canon == "power" else 1.0
+            # raysect keeps mesh vertices in single precision and evaluates 1 - cos(a) with cancellation for a thin fibre
+            rtol_sens = {"mesh": 3e-6, "fibre": 1e-6}.get(name, 1e-11)
+            kbase = "observer:%s:pipeline%dd:%s" % (name, dim, canon)
+            for key, lst in groups.items():
+                row = mat if dim == 0 else mat[key]
+                n = len(lst)
+                mean_E = np.zeros(bins)
+                lo = np.zeros(bins)
+                hi = np.zeros(bins)
+                tol = np.zeros(bins)
+                sum_tol = 0.0
+                exact_ok = True
+                for org, dr, w in lst:
+                    pw = org.transform(to_root)
+                    vw = dr.transform(to_root)
+                    ow_ = np.array([pw.x, pw.y, pw.z])
+                    dw_ = _unit([vw.x, vw.y, vw.z])
+                    E = np.array(Ray(pw, vw, min_wavelength=500.0, max_wavelength=501.0, bins=bins).trace(S.world).samples)
+                    mean_E += w * E / n
+                    an = G.analyse(g, R.T @ (ow_ - T), _unit(R.T @ dw_), step, ms, delta)
+                    nsamp = (an.total_hi / an.dt) if an.dt > 0 else 0.0
+                    sum_tol += w * (1e-13 + 4.4e-15 * (nsamp + 100.0) * an.total_hi)
+                    if an.tangent_inner:
+                        exact_ok = False
+                    K = np.maximum(2, an.runs)
+                    touched = active & (an.hi > 0)
+                    lo += w / n * np.bincount(vflat[active], weights=an.lo[active], minlength=bins)
+                    hi += w / n * np.bincount(vflat[active], weights=an.hi[active], minlength=bins)
+                    tol += w / n * (np.bincount(vflat[touched], weights=K[touched], minlength=bins) * an.dt + atol)
+                ctx.close(row, factor * mean_E, kbase + ":row-differs-from-%sweighted-mean-of-the-fired-rays" % ("sensitivity-x-" if canon == "power" else ""),
+                          "matrix row of a %s pipeline on a detector with sensitivity %.3g is not %sthe weighted mean of the entries of the rays the "
+                          "detector fired (traced directly)" % (canon, sens, "the sensitivity times " if canon == "power" else ""),
+                          atol=factor * (sum_tol + 1e-13), rtol=rtol_sens if canon == "power" else 1e-12, monitor="observer_rows", spelling=spell, via=via, pixel=list(key), sensitivity=sens)
+                if exact_ok:
+                    _interval_check(ctx, "observer_chords", kbase + ":row-violates-exact-chords",
+                                    "matrix row of a %s pipeline differs from the %sweighted mean of the exact chord lengths of the rays the detector "
+                                    "fired by more than the summed per-cell allowance" % (canon, "sensitivity times the " if canon == "power" else ""),
+                                    row / factor, lo, hi, tol, spelling=spell, via=via, pixel=list(key), sensitivity=sens, observer=name)
+    for bad in ("irradiance", "", "radiance "):
+        for dim, P in enumerate((RayTransferPipeline0D, RayTransferPipeline1D, RayTransferPipeline2D)):
+            try:
+                P(kind=bad)
+                ctx.check(False, "pipeline%dd:kind:invalid-value-accepted" % dim, "kind=%r is accepted" % bad, monitor="observer_rows")
+            except ValueError:
+                ctx.mon("observer_rows")
+
+
 class _MutModel:
     """What the object should now be, tracked from the public calls only."""
     def __init__(self, case, g):
@@ -1586,6 +1759,10 @@ def _run_case(case, ctx):
             _interval_check(ctx, "active_total", r["key_act"] or "%s:active-total:mask" % geom,
                             "entries do not sum to the chord length inside the active (masked-in) cells",
                             np.array([Mk.sum()]), lo_a, hi_a, (runs + 1) * an.dt + atol, ray=i, ray_cls=r["cls"], runs=runs, dt=an.dt)
+
+    # ---------------- pipeline kinds x detectors with non-unit sensitivity ----------------------------------------
+    if case.get("_caseno", 1) % 3 == 1:
+        _check_observers(ctx, case, g, M, rays, geom, vmap)
 
     # ---------------- aliasing of arrays handed in / handed out -------------------------------------------------
     _check_aliasing(ctx, case, g, M, rays, geom, vmap, mask)
